@@ -194,6 +194,12 @@ def finish (t : View) (dense : List (List Nat)) : View :=
   let keep := dense.map (fun v => decide (0 < v.sum))
   otherFilter (filterMask t.ids keep) t.oids (filterMask dense keep)
 
+/-- `table.filter(lambda v, i, md: v.sum() > 0, axis=axis)` on the copy, before the kernel
+(with replacement only): what is left is what the layout and the kernel see -/
+def dropEmpty (t : View) : View :=
+  let keep := t.vecs.map (fun v => decide (0 < v.sum))
+  { ids := filterMask t.ids keep, oids := t.oids, vecs := filterMask t.vecs keep }
+
 inductive Mode where
   | without | withRepl | byId
   deriving Repr, DecidableEq, BEq
@@ -216,9 +222,11 @@ def subsample (t : View) (lay : Lay) (n : Nat) (mode : Mode) (rng : Rng) : Excep
     | .error e => .error e
     | .ok outs => .ok (finish t (denseAfter t.oids.length lay outs))
   | .withRepl =>
+    -- vectors without any count are filtered out of the copy before the layout is taken
+    let t1 := dropEmpty t
     match kernelWith (lay.map (·.2)) rng.multis with
     | .error e => .error e
-    | .ok outs => .ok (finish t (denseAfter t.oids.length lay outs))
+    | .ok outs => .ok (finish t1 (denseAfter t.oids.length lay outs))
 
 /-- what a caller sees: the result (or the exception) and the input table afterwards -/
 structure Obs where
@@ -267,14 +275,13 @@ def multisOK (n : Nat) : List (List Nat) → List (List Nat) → Bool
       m.length == v.length && m.sum == n && (v.zip m).all (fun vm => vm.1 != 0 || vm.2 == 0) &&
         multisOK n vs ms'
 
-/-- all hypotheses of the property theorems for one call, as one decidable condition; for
-`withRepl` it contains the guard "every vector on the axis has a positive total" -/
+/-- all hypotheses of the property theorems for one call, as one decidable condition; with
+replacement the layout is that of the table after its all-zero vectors were dropped -/
 def pre (t : View) (lay : Lay) (n : Nat) (mode : Mode) (rng : Rng) : Bool :=
   viewWF t && decide (1 ≤ n) &&
     (match mode with
      | .without => layOK t lay && choicesOK n (lay.map (·.2)) rng.choices
-     | .withRepl => layOK t lay && multisOK n (lay.map (·.2)) rng.multis &&
-         lay.all (fun l => decide (0 < l.2.sum))
+     | .withRepl => layOK (dropEmpty t) lay && multisOK n (lay.map (·.2)) rng.multis
      | .byId => rng.shuffled.isPerm t.ids)
 
 /-! ### the property, on observations only -/
